@@ -23,9 +23,10 @@ Proof. exact restored_spec. Qed.
 
 (* Every task the restart gives back equals the expectation for a pooled task ... *)
 Theorem c19_each_reloaded_task_is_expected : forall c s v s',
+  crash_mode s = false ->
   step c s (ERestore v) = Ok s' ->
   exists p, find_task (saved s) (v_id v) = Some p /\ view_matches p v = true /\
-            pool s' = pool s ++ [p] /\ saved s' = remove_task (saved s) (v_id v).
+            pool s' = pool s ++ [p] /\ saved s' = remove_task (saved s) (v_id v) /\ crash_mode s' = false.
 Proof. exact restore_matches_expected. Qed.
 
 (* ... and, end to end, an accepted restart leaves exactly the old pool, task
